@@ -2210,12 +2210,67 @@ XSLTEngineImpl::cloneToResultTree(
         case XalanNode::ATTRIBUTE_NODE:
             if (isElementPending() == true)
             {
-                addResultAttribute(
+                const XalanDOMString&   theName = node.getNodeName();
+                const XalanDOMString&   theNamespaceURI = node.getNamespaceURI();
+
+                const XalanDOMString::size_type     theIndex =
+                    indexOf(theName, XalanUnicode::charColon);
+
+                if (theNamespaceURI.empty() == true ||
+                    theIndex == theName.length() ||
+                    startsWith(theName, DOMServices::s_XMLNamespaceWithSeparator) == true)
+                {
+                    // No namespace, or a namespace declaration: the name
+                    // can be used as it is.
+                    addResultAttribute(
                         getPendingAttributesImpl(),
-                        node.getNodeName(),
+                        theName,
                         node.getNodeValue(),
                         true,
                         locator);
+                }
+                else
+                {
+                    // The attribute is in a namespace, so make sure its prefix
+                    // is bound to that namespace on the new parent element.
+                    const ECGetCachedString     thePrefixGuard(*m_executionContext);
+
+                    XalanDOMString&     thePrefix = thePrefixGuard.get();
+
+                    substring(theName, thePrefix, 0, theIndex);
+
+                    const XalanDOMString* const     theResultNamespace =
+                        getResultNamespaceForPrefix(thePrefix);
+
+                    if (theResultNamespace != 0 &&
+                        equals(*theResultNamespace, theNamespaceURI) == false)
+                    {
+                        // The prefix means something else in the result, so
+                        // the attribute gets a new prefix.
+                        createFixedUpResultAttribute(
+                            *m_executionContext,
+                            node.getLocalName(),
+                            theNamespaceURI,
+                            node.getNodeValue());
+                    }
+                    else
+                    {
+                        if (theResultNamespace == 0)
+                        {
+                            createAndAddNamespaceResultAttribute(
+                                *m_executionContext,
+                                thePrefix,
+                                theNamespaceURI);
+                        }
+
+                        addResultAttribute(
+                            getPendingAttributesImpl(),
+                            theName,
+                            node.getNodeValue(),
+                            true,
+                            locator);
+                    }
+                }
             }
             else
             {
